@@ -577,7 +577,12 @@ def run_nrt(case, tape, emit):
     import sc3.base.clock as sclk
     lookups = []
     sclk.SystemClock.sched_abs(T0, program(case, main, lookups))
-    score = main.process(0)
+    try:
+        score = main.process(0)
+    except Exception as e:
+        r = W.nrt_failed(e, [], w)
+        r['lookups'] = lookups
+        return r
     lst = []
     for b in score.list:
         lst.append([b[0]] + [[('<bytes>' if isinstance(x, (bytes, memoryview))
@@ -888,6 +893,8 @@ def run_case(case, tape, ctx):
     # NRT: score entries (latency 0)
     if nrt['errors']:
         viol.add('C14-1', 'nrt-error-logged', str(nrt['errors'][0]))
+    if W.process_raised(viol, 'C14-1', nrt):
+        return W.result(viol, agg)
     got = [(b[0], b[1]) for b in nrt['score'] if len(b) == 2]
     check_bundles('nrt', got, case, 0.0, viol, stats, 1e-9)
     # key lookups
